@@ -8,6 +8,8 @@ import (
 	"go/types"
 	"strings"
 
+	"golang.org/x/tools/go/ssa"
+
 	"verif/checker/core"
 )
 
@@ -664,6 +666,41 @@ func runMirror(c *core.Ctx) []core.Obligation {
 				obs = append(obs, core.Ob("R-MIRROR", "AdvanceWrap:recheck", c.Pos(fn.Pos()), fn.FullName(), core.Violated, fmt.Sprintf("%d re-checks found, 2 expected (backward and forward)", n)))
 			}
 		}
+	}
+	// 32-bit int: the wrap helper receives coordinates up to a whole face width beyond the face (neighbours of a face
+	// cell); they are brought into [-1, MaxSize] BEFORE the shift (i<<1)+1-MaxSize, which otherwise overflows a 32-bit int
+	if fn := c.Fn("s2", "", "cellIDFromFaceIJWrap"); fn != nil {
+		n, ok, why := 0, true, ""
+		core.AllInstrs(fn, func(in ssa.Instruction) {
+			bo, isBo := in.(*ssa.BinOp)
+			if !isBo || bo.Op != token.SHL {
+				return
+			}
+			if b, isB := bo.Type().Underlying().(*types.Basic); !isB || b.Kind() != types.Int {
+				return
+			}
+			n++
+			call, isCall := bo.X.(*ssa.Call)
+			if !isCall || core.StaticCallee(call) == nil || core.StaticCallee(call).Name() != "clampInt" || len(call.Call.Args) != 3 {
+				ok, why = false, "the coordinate shifted left in cellIDFromFaceIJWrap is not first clamped to [-1, MaxSize]: on a build where int has 32 bits, (i<<1)+1-MaxSize overflows for the neighbours of a face cell (i one face width off the face) and the neighbour lands on the wrong face"
+				return
+			}
+			lo, okLo := core.ConstInt(call.Call.Args[1])
+			hi, okHi := core.ConstInt(call.Call.Args[2])
+			if !okLo || !okHi || lo < -(1<<30) || hi > (1<<30) {
+				ok, why = false, "the clamp before the shift does not keep the coordinate within 31 bits"
+			}
+		})
+		if n < 2 {
+			ok, why = false, fmt.Sprintf("%d shifts found in cellIDFromFaceIJWrap, 2 expected", n)
+		}
+		if ok {
+			obs = append(obs, core.Ob("R-MIRROR", "wrap:int-clamp", c.Pos(fn.Pos()), core.FuncName(fn), core.Discharged, "both coordinates are clamped to [-1, MaxSize] before the shift: no overflow with 32-bit int"))
+		} else {
+			obs = append(obs, core.Ob("R-MIRROR", "wrap:int-clamp", c.Pos(fn.Pos()), core.FuncName(fn), core.Violated, why))
+		}
+	} else {
+		obs = append(obs, core.Ob("R-MIRROR", "wrap:int-clamp", "-", "", core.Violated, "unresolved anchor"))
 	}
 	_ = strings.Join
 	return obs
